@@ -203,3 +203,29 @@ Proof.
     assert (Hy' : layer_named c (rewritten f P X) nn = Some x) by (apply layer_named_some; auto).
     rewrite Hy'. rewrite !nmounts_beq_refl, beq_refl. reflexivity.
 Qed.
+
+(* ------------------------------------------------------------------ corollaries *)
+(* writing out what was read and reading it again gives the same configuration, without error *)
+Theorem layerfile_reread content :
+  let lf := read_layerfile content in
+  read_layerfile (concat (layerfile_chunks (lf_base lf) (lf_mounts lf) (lf_exports lf)))
+  = MkLF (lf_base lf) (lf_mounts lf) (lf_exports lf) 0.
+Proof.
+  cbv zeta. apply layerfile_roundtrip. destruct (read_layerfile_wf content) as (H1 & H2 & H3).
+  unfold lf_wf. now rewrite H1, H2, H3.
+Qed.
+
+Theorem crash_atomic_crash c w e cmd um k : e_fault e = CrashAt k -> e_pretend e = false ->
+  wf_world c (wo_fs w) cmd = true -> conj1 c w (view_of_model c w e cmd um) = true.
+Proof. intros _. apply crash_atomic_gen. Qed.
+
+(* the whole property predicate on the model's rebase step *)
+Theorem rebase_step_spec c w e um name newbase :
+  wf_world c (wo_fs w) (CRebase name newbase) = true -> wf_rebase c (wo_fs w) name = true ->
+  C11.step_spec c w (view_of_model c w e (CRebase name newbase) um) = true.
+Proof.
+  intros H1 H2. rewrite step_spec_eq.
+  destruct (view_of_model_fields c w e (CRebase name newbase) um) as (_ & -> & _ & _).
+  destruct (e_pretend e) eqn:Ep; [reflexivity|].
+  rewrite (crash_atomic_gen c w e _ um Ep H1), (rebase_preserves c w e um name newbase Ep H2). reflexivity.
+Qed.
